@@ -60,11 +60,17 @@ def body(shape, name, k, edit=None):
     if shape == "fmtcall":
         return ("func %s(a int, s string) string {\n%s\treturn fmt.Sprintf(\"%%s-%%d\", s, a %s %d)\n}\n"
                 % (name, extra, op, k2 + 1))
+    if shape == "twoloops":
+        return ("func %s(xs []int, n int) int {\n\ta := 0\n%s\tfor i := 0; i < len(xs); i++ {\n\t\ta = a %s xs[i]\n\t}\n\tfor j := n; j > %d; j-- {\n\t\tif j%%2 == 0 {\n\t\t\tcontinue\n\t\t}\n\t\ta += j\n\t}\n\treturn a\n}\n"
+                % (name, extra, op, k2))
+    if shape == "typeswitch":
+        return ("func %s(v interface{}, a int) int {\n%s\tswitch x := v.(type) {\n\tcase int:\n\t\treturn x %s a\n\tcase string:\n\t\treturn len(x) + %d\n\tcase []int:\n\t\treturn len(x)\n\t}\n\treturn %d\n}\n"
+                % (name, extra, op, k2, k))
     raise KeyError(shape)
 
 
 SHAPES = ["arith", "arith2", "branch", "loop", "nested", "calls", "netcall", "rangeloop", "closure", "deferpanic",
-          "goroutine", "switch", "strbuild", "fmtcall"]
+          "goroutine", "switch", "strbuild", "fmtcall", "twoloops", "typeswitch"]
 
 
 def method_body(shape, recv, name, k, edit=None):
